@@ -438,12 +438,45 @@ func ruleCommandEncoderPairing(c *Ctx, rule string) {
 			c.fail(rule, nm+".Close", token.NoPos, "a command encoder is stored into "+nm+" which has no Close method to end it")
 			continue
 		}
-		gf := mustFlow(closeFn, facts{}, func(f facts, i ssa.Instruction) facts {
-			if call, ok := i.(ssa.CallInstruction); ok && staticCallee(call) == end {
-				return f.with("ended")
+		// a private helper that ends the encoder (or finds it nil) on all of its paths
+		var endsAll func(h *ssa.Function, d int) bool
+		var genEnd func(f facts, i ssa.Instruction) facts
+		nilEdgeEnd := func(f facts, b *ssa.BasicBlock, s int) facts {
+			for _, a := range edgeAtoms(b, s) {
+				if pt, ok := a.V.Type().(*types.Pointer); ok && a.Nil == 1 {
+					if n, ok := pt.Elem().(*types.Named); ok && n.Obj().Name() == "commandEncoder" {
+						f = f.with("ended")
+					}
+				}
 			}
 			return f
-		}, func(f facts, b *ssa.BasicBlock, s int) facts {
+		}
+		endsAll = func(h *ssa.Function, d int) bool {
+			if h == nil || h.Blocks == nil || d == 0 || h == closeFn || h == end {
+				return false
+			}
+			hf := mustFlow(h, facts{}, genEnd, nilEdgeEnd)
+			all := len(returnsOf(h)) > 0
+			for _, r := range returnsOf(h) {
+				if f, reach := hf.at(r); reach && !f.has("ended") {
+					all = false
+				}
+			}
+			return all
+		}
+		genEnd = func(f facts, i ssa.Instruction) facts {
+			if call, ok := i.(ssa.CallInstruction); ok {
+				cal := staticCallee(call)
+				if cal == end {
+					return f.with("ended")
+				}
+				if cal != nil && inModule(cal) && isHelperOf(cal, closeFn, 2) && endsAll(cal, 2) {
+					return f.with("ended")
+				}
+			}
+			return f
+		}
+		gf := mustFlow(closeFn, facts{}, genEnd, func(f facts, b *ssa.BasicBlock, s int) facts {
 			add := valueEdgeFacts(b, s)
 			for _, a := range edgeAtoms(b, s) {
 				// the stored encoder is nil: nothing left to end
